@@ -10,12 +10,45 @@ from ..core.pyrepo import Repo, calls_in, dotted, norm_stmt
 PLAT_MODS = ["_pslinux", "_psbsd", "_psosx", "_pssunos", "_psaix", "_pswindows"]
 
 
-def _activations(stmts, which):
+_METHODS = {}       # class methods in scope, set by run(): name -> [FuncInfo]
+
+
+def _reader_set(e, mod=None):
+    """Names m for an expression denoting a collection of `self.m` bound methods: a
+    literal tuple/list, or `self.<meth>()` whose body is `return (self.a, self.b, ...)`."""
+    if isinstance(e, (ast.Tuple, ast.List)) and e.elts and all(
+            isinstance(x, ast.Attribute) and dotted(x.value) == "self" for x in e.elts):
+        return [x.attr for x in e.elts]
+    if isinstance(e, ast.Call) and isinstance(e.func, ast.Attribute) \
+            and dotted(e.func.value) == "self" and not e.args:
+        for mn_, mods in _METHODS.items():
+            if mod is not None and mn_ != mod:
+                continue
+            for f_ in mods.get(e.func.attr, []):
+                rets = [r for r in ast.walk(f_.node) if isinstance(r, ast.Return)]
+                if len(rets) == 1 and rets[0].value is not None:
+                    got = _reader_set(rets[0].value, mod)
+                    if got:
+                        return got
+    return None
+
+
+def _activations(stmts, which, mod=None):
     """{(method, condition-text)} for X.cache_activate(self) / cache_deactivate."""
     out = set()
 
     def rec(body, cond):
         for st in body:
+            if isinstance(st, ast.For) and isinstance(st.target, ast.Name) and not st.orelse:
+                # for reader in (self.a, self.b) / self._sources(): reader.cache_activate(self)
+                names_ = _reader_set(st.iter, mod)
+                if names_:
+                    for c in [x for b_ in st.body for x in ast.walk(b_) if isinstance(x, ast.Call)]:
+                        if isinstance(c.func, ast.Attribute) and c.func.attr == which \
+                                and dotted(c.func.value) == st.target.id:
+                            for m_ in names_:
+                                out.add((m_, cond))
+                    continue
             if isinstance(st, ast.If):
                 rec(st.body, cond + (norm_stmt(st.test),))
                 rec(st.orelse, cond + ("not " + norm_stmt(st.test),))
@@ -61,6 +94,12 @@ def run(ctx):
     repo = Repo(ctx.repo)
     A = Analysis(repo)
     one = repo.func("psutil", "Process.oneshot")
+    _METHODS.clear()
+    for mn_ in ["psutil"] + list(PLAT_MODS):
+        try:
+            _METHODS[mn_] = repo.methods(mn_, "Process")
+        except Exception:  # noqa: BLE001
+            pass
 
     # ------------------------------------------------------------------- R1
     ctx.rule("C16.R1", "typestate pairing: what oneshot() activates in its try is "
@@ -72,7 +111,7 @@ def run(ctx):
             and any(isinstance(x, ast.Yield) for b in t.body for x in ast.walk(b))]
     act = set()
     if not trys:
-        act_any = _activations(one.node.body, "cache_activate")
+        act_any = _activations(one.node.body, "cache_activate", "psutil")
         ctx.require(act_any, "oneshot(): cache activation vanished")
         act = act_any
         ctx.fail("C16.R1", "frontend:pairs", one.file, one.node.lineno, one.qual,
@@ -81,10 +120,10 @@ def run(ctx):
                  "every later call keeps answering from the stale snapshot")
     else:
         t = trys[0]
-        act = _activations(t.body, "cache_activate")
-        deact = _activations(t.finalbody, "cache_deactivate")
-        act_any = _activations(one.node.body, "cache_activate")
-        deact_any = _activations(one.node.body, "cache_deactivate")
+        act = _activations(t.body, "cache_activate", "psutil")
+        deact = _activations(t.finalbody, "cache_deactivate", "psutil")
+        act_any = _activations(one.node.body, "cache_activate", "psutil")
+        deact_any = _activations(one.node.body, "cache_deactivate", "psutil")
         names = lambda xs: {m for m, _ in xs}  # noqa: E731
         if act == deact and act and names(act_any) == names(act) \
                 and names(deact_any) == names(deact):
@@ -121,8 +160,8 @@ def run(ctx):
         en = repo.func(pm, "Process.oneshot_enter", required=False)
         ex = repo.func(pm, "Process.oneshot_exit", required=False)
         ctx.require(en and ex, f"{pm}: oneshot_enter/oneshot_exit vanished")
-        a = {m for m, _ in _activations(en.node.body, "cache_activate")}
-        d = {m for m, _ in _activations(ex.node.body, "cache_deactivate")}
+        a = {m for m, _ in _activations(en.node.body, "cache_activate", pm)}
+        d = {m for m, _ in _activations(ex.node.body, "cache_deactivate", pm)}
         dec = {n for n, fs in repo.methods(pm, "Process").items()
                for f in fs if "memoize_when_activated" in f.decorators}
         if a == d == dec and a:
@@ -154,7 +193,7 @@ def run(ctx):
     ctx.require(set(found) == {"/stat", "/status", "/smaps"},
                 f"per-process record readers not found: {sorted(found)}")
     enter = {m for m, _ in _activations(
-        repo.func("_pslinux", "Process.oneshot_enter").node.body, "cache_activate")}
+        repo.func("_pslinux", "Process.oneshot_enter").node.body, "cache_activate", "_pslinux")}
     for tail, sites in sorted(found.items()):
         for fi, c in sites:
             key = f"{fi.qual}:{tail}"
@@ -253,6 +292,22 @@ def run(ctx):
     w = repo.func("_common", "memoize_when_activated.wrapper")
     t = [x for x in w.node.body if isinstance(x, ast.Try)]
     probs = []
+    # `fun(self)` itself, or a sibling closure that only passes the call through
+    # (returns fun(<its parameter>); its handlers around that call only re-raise)
+    passthru = set()
+    deco = repo.func("_common", "memoize_when_activated")
+    for g_ in [x for x in deco.node.body if isinstance(x, ast.FunctionDef) and x is not w.node]:
+        rets_ = [r for r in ast.walk(g_) if isinstance(r, ast.Return)]
+        par_ = [a_.arg for a_ in g_.args.args]
+        if rets_ and len(par_) == 1 and all(
+                isinstance(r.value, ast.Call) and dotted(r.value.func) == "fun"
+                and [dotted(a_) for a_ in r.value.args] == par_ for r in rets_) \
+                and all(len(h_.body) == 1 and isinstance(h_.body[0], ast.Raise)
+                        for x_ in ast.walk(g_) if isinstance(x_, ast.Try) for h_ in x_.handlers):
+            passthru.add(g_.name)
+
+    def is_fun_call(c_):
+        return isinstance(c_, ast.Call) and (dotted(c_.func) == "fun" or dotted(c_.func) in passthru)
     if not t:
         probs.append("lookup try vanished")
     else:
@@ -266,8 +321,8 @@ def run(ctx):
         if ha is None or hk is None or len(t.handlers) != 2:
             probs.append(f"handlers are {list(hs)}; expected AttributeError and KeyError")
         else:
-            if not any(isinstance(s, ast.Return) and isinstance(s.value, ast.Call)
-                       and dotted(s.value.func) == "fun" for st in ha.body for s in ast.walk(st)):
+            if not any(isinstance(s, ast.Return) and is_fun_call(s.value)
+                       for st in ha.body for s in ast.walk(st)):
                 probs.append("AttributeError case does not call fun(self) directly")
             stores = [s for st in hk.body for s in ast.walk(st) if isinstance(s, ast.Assign)
                       and norm_stmt(s.targets[0]).replace(" ", "") == "self._cache[fun]"]
